@@ -172,3 +172,13 @@ def readanswers_jobs(tier):
                             "completion callback may start a follow-up request whose send (one level, every socket/cookie/"
                             "serialisation failure) may land on the connection under read" % ("TCP" if usevc else "UDP")))
     return J
+
+def write_event_jobs(tier):
+    return [dict(name="write_event_tcp", harness="../machine/write_event.c",
+                 defines=["-DVP_REALLOC_SIZES=32,64", "-DVP_REALLOC_ARRAYCOPY"],
+                 real=LIB, support=SUP, unwind=8, backend="cadical", timeout=1800, mem_gb=8, fs_array=8,
+                 replace=["ares_requeue_query"], replace_with=["rq_stub.c"],
+                 unwindset=UW + ["ares_send_query:2", "ares_requeue_query:5", "memmove.0:34", "memmove.1:34"],
+                 witnesses=["end", "closed on write error", "still open"],
+                 bound="ONE process_write on a TCP connection: announced interest READ or READ|WRITE, connected or connecting, "
+                       "0/1 queued frame, 0/1 request in flight; the socket accepts any 1..len bytes, would-blocks or refuses")]
